@@ -156,10 +156,91 @@ theorem c08_latched_queue (sem : Sem σ δ) (s : RState σ δ) (h : s.faulted = 
     · rw [h2.2.1, hq.1]; rfl
     · rw [h2.2.2, hq.2]; rfl
 
-/-- **Until a restart**: `restart` (either mode) and `clear_fault` end the latch. -/
-theorem c08_restart_clears (sem : Sem σ δ) (s : RState σ δ) (op : Op) (h : op.resets = true) :
-    (step sem s op).st.faulted = false ∧ (step sem s op).st.lastFault = none ∧ (step sem s op).err = none := by
-  cases op <;> simp [Op.resets] at h <;> simp [step]
+/-- **Until a restart**: `clear_fault` and a restart (either mode) that SUCCEEDS end the latch. -/
+theorem c08_restart_clears (sem : Sem σ δ) (s : RState σ δ) :
+    ((step sem s .clearFault).st.faulted = false ∧ (step sem s .clearFault).err = none) ∧
+    ∀ m, (sem.reinit m s.store).2 = none →
+      (step sem s (.restart m)).st.faulted = false ∧ (step sem s (.restart m)).st.lastFault = none ∧
+      (step sem s (.restart m)).err = none := by
+  refine ⟨by simp [step], fun m h => ?_⟩
+  simp [step, h]
+
+/-- **A failed restart is not a restart.**  If the re-initialisation fails half-way, `restart`
+returns that error and touches nothing but the (partly rebuilt) storage: latch, last fault, images,
+driver state, pending queues, clock and cycle counter are as before.  On a faulted resource the
+latch therefore stays set and the next cycle request is refused. -/
+theorem c08_failed_restart (sem : Sem σ δ) (s : RState σ δ) (m : RestartMode) (e : Err)
+    (h : (sem.reinit m s.store).2 = some e) :
+    (step sem s (.restart m)).err = some e ∧
+    (step sem s (.restart m)).st = { s with store := (sem.reinit m s.store).1 } ∧
+    (s.faulted = true →
+      executeCycle sem (step sem s (.restart m)).st =
+        { st := (step sem s (.restart m)).st, evs := [], err := some .resourceFaulted }) := by
+  have hst : (step sem s (.restart m)).st = { s with store := (sem.reinit m s.store).1 } := by
+    simp [step, h]
+  refine ⟨by simp [step, h], hst, fun hf => ?_⟩
+  exact c08_refused sem _ (by rw [hst]; exact hf)
+
+/-- Does the operation release the latch in this state?  `clear_fault` always, `restart` iff it
+succeeds. -/
+def releases (sem : Sem σ δ) (s : RState σ δ) : Op → Bool
+  | .clearFault => true
+  | .restart m => (sem.reinit m s.store).2.isNone
+  | _ => false
+
+/-- No operation of the history releases the latch in the state it is applied to. -/
+def noRelease (sem : Sem σ δ) : RState σ δ → List Op → Prop
+  | _, [] => True
+  | s, op :: ops => releases sem s op = false ∧ noRelease sem (step sem s op).st ops
+
+/-- **Latched until a SUCCESSFUL restart (induction over histories).**  From a faulted state,
+along every history in which no `clear_fault` occurs and every restart attempt fails — with
+cycles, faults, debugger activity and configuration updates in between, in any order — the
+resource stays faulted, the cycle counter stands still, and every cycle request is refused as in
+`c08_refused` (identity on the state reached so far).  (Variables can change in such a history
+only through what the failing restart attempts themselves leave behind.) -/
+theorem c08_latched_failed_restarts (sem : Sem σ δ) (s : RState σ δ) (h : s.faulted = true)
+    (ops : List Op) (hno : noRelease sem s ops) :
+    (run sem s ops).faulted = true ∧ (run sem s ops).cycles = s.cycles ∧
+    ∀ pre post, ops = pre ++ Op.cycle :: post →
+      step sem (run sem s pre) .cycle =
+        { st := run sem s pre, evs := [], err := some .resourceFaulted } := by
+  have stepk : ∀ (s : RState σ δ) (op : Op), s.faulted = true → releases sem s op = false →
+      (step sem s op).st.faulted = true ∧ (step sem s op).st.cycles = s.cycles := by
+    intro s op h hr
+    by_cases hres : op.resets = false
+    · have := c08_step_keeps_latch sem s h op hres
+      exact ⟨this.1, this.2.2⟩
+    · cases op <;> simp [Op.resets] at hres
+      case restart m =>
+        simp only [releases] at hr
+        cases hre : (sem.reinit m s.store).2 with
+        | none => simp [hre] at hr
+        | some e => rw [(c08_failed_restart sem s m e hre).2.1]; exact ⟨h, rfl⟩
+      case clearFault => simp [releases] at hr
+  have key : ∀ (ops : List Op) (s : RState σ δ), s.faulted = true → noRelease sem s ops →
+      (run sem s ops).faulted = true ∧ (run sem s ops).cycles = s.cycles := by
+    intro ops
+    induction ops with
+    | nil => intro s h _; exact ⟨h, rfl⟩
+    | cons op ops ih =>
+      intro s h hno
+      have h1 := stepk s op h hno.1
+      have h2 := ih (step sem s op).st h1.1 hno.2
+      simp only [run]
+      exact ⟨h2.1, h2.2.trans h1.2⟩
+  have hprefix : ∀ (pre post : List Op) (s : RState σ δ), noRelease sem s (pre ++ post) →
+      noRelease sem s pre := by
+    intro pre
+    induction pre with
+    | nil => intro _ _ _; trivial
+    | cons op pre ih => intro post s hn; exact ⟨hn.1, ih post _ hn.2⟩
+  obtain ⟨h1, h2⟩ := key ops s h hno
+  refine ⟨h1, h2, ?_⟩
+  intro pre post hsplit
+  have := (key pre s h (hprefix pre (Op.cycle :: post) s (hsplit ▸ hno))).1
+  simp only [step]
+  exact c08_refused sem _ this
 
 /-! ## Every fault reaches the latch -/
 
@@ -170,11 +251,12 @@ theorem c08_apply_fault_latches (sem : Sem σ δ) (s : RState σ δ) (e : Err) (
   simp only [applyFault]
   split <;> simp [applySafeState]
 
-/-- **Whatever operation reports an error leaves the resource faulted.**  Either the error is the
-refusal of a cycle on an already faulted resource (nothing changed), or it has just been latched
-as `last_fault`. -/
+/-- **Whatever cycle or fault operation reports an error leaves the resource faulted.**  Either
+the error is the refusal of a cycle on an already faulted resource (nothing changed), or it has
+just been latched as `last_fault`.  (The only other operation that can report an error is a
+failing `restart`, which is not a cycle and leaves the latch as it was: `c08_failed_restart`.) -/
 theorem c08_error_latches (sem : Sem σ δ) (s : RState σ δ) (op : Op) (e : Err)
-    (h : (step sem s op).err = some e) :
+    (hop : ∀ m, op ≠ .restart m) (h : (step sem s op).err = some e) :
     (step sem s op).st.faulted = true ∧
     ((step sem s op).st.lastFault = some e ∨
       (e = .resourceFaulted ∧ s.faulted = true ∧ (step sem s op).st = s)) := by
@@ -219,7 +301,7 @@ theorem c08_error_latches (sem : Sem σ δ) (s : RState σ δ) (op : Op) (e : Er
   | lvalWrite k v => simp [step] at h
   | forceVar k v => simp [step] at h
   | releaseVar k => simp [step] at h
-  | restart m => simp [step] at h
+  | restart m => exact absurd rfl (hop m)
   | clearFault => simp [step] at h
 
 /-- Watchdog timeout and simulation fault always fault the resource (they go through
@@ -519,15 +601,21 @@ theorem c08_safe_after (sem : Sem σ δ) (s0 : RState σ δ) (pre : List Ev) (e 
   · simp only []
     rw [a3]; simp
 
+/-- A warm restart that succeeds reports no error and leaves the runtime not faulted. -/
+theorem restart_ok (sem : Sem σ δ) (hre : ∀ st, (sem.reinit .warm st).2 = none) (s : RState σ δ) :
+    (step sem s (.restart .warm)).err = none ∧ (step sem s (.restart .warm)).st.faulted = false := by
+  simp [step, hre]
+
 /-- **The resource thread (`run_resource_loop`) and the latch.**  Started on a runtime that is not
 faulted, one iteration — whatever the cycle, the post-cycle simulation step and the watchdog do —
 either lets the thread go on, and then the runtime is again not faulted (the cycle succeeded, or
 the error / watchdog overrun was answered by a warm restart because the policy / action is
 `restart`), or ends the thread in `Faulted` with `last_error = e`, and then the runtime is faulted
 with `e` latched.  So the thread never asks a faulted runtime for a cycle, and never runs a cycle
-after a fault without a restart in between. -/
-theorem c08_runner_iter (sem : Sem σ δ) (s : RState σ δ) (t : Int) (wdEnabled over : Bool)
-    (post : Option Err) (hs : s.faulted = false) :
+after a fault without a restart in between.  Guard `hre`: the warm restarts the thread performs
+succeed (a failing one ends the thread without `apply_fault`: finding C08-runner-restart-failure). -/
+theorem c08_runner_iter (sem : Sem σ δ) (hre : ∀ st, (sem.reinit .warm st).2 = none)
+    (s : RState σ δ) (t : Int) (wdEnabled over : Bool) (post : Option Err) (hs : s.faulted = false) :
     ((runnerIter sem s t wdEnabled over post).err = none →
       (runnerIter sem s t wdEnabled over post).st.faulted = false) ∧
     (∀ e, (runnerIter sem s t wdEnabled over post).err = some e →
@@ -542,7 +630,7 @@ theorem c08_runner_iter (sem : Sem σ δ) (s : RState σ δ) (t : Int) (wdEnable
     obtain ⟨h1, _, _, h4, h5⟩ := hout
     simp only [h1]
     split
-    · exact ⟨fun _ => by simp [step], fun e' h => by simp at h⟩
+    · exact ⟨fun _ => (restart_ok sem hre _).2, fun e' h => by rw [(restart_ok sem hre _).1] at h; cases h⟩
     · refine ⟨fun h => by simp at h, fun e' h => ?_⟩
       simp only [Option.some.injEq] at h
       subst h
@@ -557,7 +645,7 @@ theorem c08_runner_iter (sem : Sem σ δ) (s : RState σ δ) (t : Int) (wdEnable
       have hl := c08_apply_fault_latches sem (executeCycle sem { s with now := t }).st .simulationFault
         (FaultDecision.fromFaultPolicy (executeCycle sem { s with now := t }).st.policy)
       split
-      · exact ⟨fun _ => by simp [step], fun e' h => by simp at h⟩
+      · exact ⟨fun _ => (restart_ok sem hre _).2, fun e' h => by rw [(restart_ok sem hre _).1] at h; cases h⟩
       · refine ⟨fun h => by simp at h, fun e' h => ?_⟩
         simp only [Option.some.injEq] at h
         subst h
@@ -566,7 +654,7 @@ theorem c08_runner_iter (sem : Sem σ δ) (s : RState σ δ) (t : Int) (wdEnable
       simp only []
       split
       · split
-        · exact ⟨fun _ => by simp [step], fun e' h => by simp at h⟩
+        · exact ⟨fun _ => (restart_ok sem hre _).2, fun e' h => by rw [(restart_ok sem hre _).1] at h; cases h⟩
         · refine ⟨fun h => by simp at h, fun e' h => ?_⟩
           simp only [Option.some.injEq] at h
           subst h
@@ -578,8 +666,9 @@ theorem c08_runner_iter (sem : Sem σ δ) (s : RState σ δ) (t : Int) (wdEnable
 /-- The same over any number of iterations (induction), for every sequence of post-cycle results:
 while the thread runs, the runtime is not faulted at the start of any iteration; when the thread
 ends in `Faulted`, the fault is latched. -/
-theorem c08_runner_loop (sem : Sem σ δ) (interval : Int) (wdEnabled over : Bool)
-    (posts : Nat → Option Err) (n : Nat) (s : RState σ δ) (t : Int) (hs : s.faulted = false) :
+theorem c08_runner_loop (sem : Sem σ δ) (hre : ∀ st, (sem.reinit .warm st).2 = none) (interval : Int)
+    (wdEnabled over : Bool) (posts : Nat → Option Err) (n : Nat) (s : RState σ δ) (t : Int)
+    (hs : s.faulted = false) :
     ((runnerLoop sem interval wdEnabled over posts n s t).err = none →
       (runnerLoop sem interval wdEnabled over posts n s t).st.faulted = false) ∧
     (∀ e, (runnerLoop sem interval wdEnabled over posts n s t).err = some e →
@@ -588,7 +677,7 @@ theorem c08_runner_loop (sem : Sem σ δ) (interval : Int) (wdEnabled over : Boo
   induction n generalizing s t with
   | zero => exact ⟨fun _ => hs, fun e h => by simp [runnerLoop] at h⟩
   | succ n ih =>
-    have hi := c08_runner_iter sem s t wdEnabled over (posts n) hs
+    have hi := c08_runner_iter sem hre s t wdEnabled over (posts n) hs
     simp only [runnerLoop]
     cases hr : (runnerIter sem s t wdEnabled over (posts n)).err with
     | some e =>
@@ -672,12 +761,14 @@ theorem c08_runner_safe (sem : Sem σ δ) (s : RState σ δ) (t : Int) (wdEnable
       exact this
 
 /-- **Restart request — partial: the retain store loads.**  Serving an external restart request
-leaves the thread running on a runtime that is not faulted.  Guard `loadErr = none`: see
+leaves the thread running on a runtime that is not faulted.  Guards: the restart succeeds and
+`loadErr = none`: see
 `c08_counterexample_restart_load`. -/
-theorem c08_runner_restart_signal_partial (sem : Sem σ δ) (s : RState σ δ) (m : RestartMode) :
+theorem c08_runner_restart_signal_partial (sem : Sem σ δ) (s : RState σ δ) (m : RestartMode)
+    (hre : (sem.reinit m s.store).2 = none) :
     (runnerRestartSignal sem s m none).err = none ∧
     (runnerRestartSignal sem s m none).st.faulted = false := by
-  simp [runnerRestartSignal, step]
+  simp [runnerRestartSignal, step, hre]
 
 /-! ## Non-vacuity -/
 
@@ -693,7 +784,7 @@ def toy : Sem Nat Nat where
   exec := fun _ _ st => (st + 1, 1, if st = 2 then some .divisionByZero else none)
   publish := fun _ io => (io, none)
   persist := fun _ _ env => (env, none)
-  reinit := fun _ _ => 0
+  reinit := fun m st => if m = .warm ∧ st = 3 then (7, some .divisionByZero) else (0, none)
   poke := fun _ v _ => v.toNat
 
 def toyAddr : Addr := { area := .output, size := .byte, byte := 1, bit := 0, path := [1], wildcard := false }
@@ -795,6 +886,26 @@ example :
     (runnerIter toy toyState 0 false false (some .invalidIoAddress)).st.faulted = true ∧
     (runnerIter toy toyState 0 false false (some .invalidIoAddress)).st.io.read toyAddr = .ok (.byte 90) :=
   ⟨rfl, rfl, by decide, rfl, rfl, rfl, rfl, rfl⟩
+
+/-- A failed restart on the toy application (its warm restart fails when the counter is 3, leaving
+7 behind): after the fault of the third cycle the restart attempt returns `DivisionByZero`, the
+resource is still faulted, the storage is what the attempt left, and in the history
+`restart, cycle, write, cycle` nothing releases the latch (hypotheses of `c08_failed_restart` and
+`c08_latched_failed_restarts`); a cold restart succeeds and releases it. -/
+example :
+    let f := (step toy (run toy toyState [.cycle, .cycle]) .cycle).st
+    f.faulted = true ∧ (toy.reinit .warm f.store).2 = some .divisionByZero ∧
+    (step toy f (.restart .warm)).err = some .divisionByZero ∧
+    (step toy f (.restart .warm)).st.faulted = true ∧ (step toy f (.restart .warm)).st.store = 7 ∧
+    noRelease toy f [.restart .warm, .cycle, .varWrite 1 2, .cycle] ∧
+    (toy.reinit .cold f.store).2 = none ∧ (step toy f (.restart .cold)).st.faulted = false := by
+  intro f
+  exact ⟨rfl, rfl, rfl, rfl, rfl, ⟨rfl, rfl, rfl, rfl, trivial⟩, rfl, rfl⟩
+
+/-- The guard `hre` of the `c08_runner_*` theorems is satisfiable: the toy application with a
+restart that always succeeds. -/
+example : ∀ st, (({ toy with reinit := fun _ _ => (0, none) } : Sem Nat Nat).reinit .warm st).2 = none :=
+  fun _ => rfl
 
 /-- **Counterexample (finding C08-runner-restart-failure): the guard `loadErr = none` of
 `c08_runner_restart_signal_partial` cannot be dropped.**  On the toy application under fault
